@@ -5,6 +5,7 @@ from __future__ import annotations
 
 import inspect
 import os
+import sys
 import subprocess
 import tempfile
 import time
@@ -1053,6 +1054,8 @@ def _check_outcome(C: Contract, c: Ctx, env: dict, outcome):
                     where = f"{os.path.basename(fr.filename)}:{fr.lineno}"
                     break
             label = "internal-assert" if isinstance(exc, AssertionError) else type(exc).__name__
+            if os.environ.get("PYVC_DUMP"):
+                traceback.print_exception(type(exc), exc, exc.__traceback__, file=sys.stderr)
             c.check(False, f"no-exception:{label}@{where}", kind="noexc", note=f"{type(exc).__name__}: {str(exc)[:200]}")
 
 
